@@ -27,14 +27,14 @@ theorem SER_html_renders_parser_strict (he : List Str) (t : Tree) (pretty : Bool
   | false => exact renderingDoc_rendersDoc_strict (SER_html_renders he t hw hs) hg'
   | true => exact renderingDoc_rendersDoc_strict (SER_html_pretty_renders he t hw hs) hg'
 
-/-- unclosed form under the guard of the pinned `tostring_unclosed_elements` -/
+/-- unclosed form (OFXv1 SGML without end tags), plain and pretty, all leaf data; guard: no childless aggregate -/
 theorem SER_unclosed_renders_parser_partial (he : List Str) (t : Tree) (pretty strict : Bool)
     (hw : wireTree t = true) (hg : unclosedGuard t = true) (h3 : strict = true → g3Ok t = true) :
-    Spec.RendersDoc strict t (serializeBody he false pretty t) := by
+    Spec.RendersDoc strict (escapeTree t) (serializeBody he false pretty t) := by
   have h := SER_unclosed_renders_partial he t pretty hw hg
   cases strict with
   | false => exact renderingDoc_rendersDoc h
-  | true => exact renderingDoc_rendersDoc_strict h (h3 rfl)
+  | true => exact renderingDoc_rendersDoc_strict h ((g3Ok_escapeTree_both.1 t).trans (h3 rfl))
 
 example : g3Ok exTree = true ∧ g3Ok exTreeU = true := by decide
 
